@@ -67,6 +67,57 @@ func c10Scenarios(tier string) []*Scenario {
 			scs = append(scs, c10Scenario(2, pol, 0, ans, "none", true))
 		}
 	}
+	// daemon with both probes: liveness declares it dead and it is relaunched; readiness keeps giving the same
+	// answer before and after. The reported health follows the most recent readiness answer since the launch.
+	for _, ready := range []string{"ok", "fail"} {
+		ready := ready
+		pc := PC{Name: "a", Restart: "always", Backoff: 1, Lines: []string{"is_daemon: true",
+			"liveness_probe:", "  exec:", "    command: \"probe-live-a\"", "  period_seconds: 1", "  failure_threshold: 2",
+			"readiness_probe:", "  exec:", "    command: \"probe-ready-a\"", "  period_seconds: 1", "  failure_threshold: 30"}}
+		sc := &Scenario{
+			ID:         "c10-daemon-both-probes-ready[" + ready + "]",
+			YAML:       projectYAML(nil, pc),
+			Procs:      map[string]*ProcScript{"a": {Launches: exits(0)}},
+			Aux:        map[string][]string{"probe-live-a": {"ok", "fail", "fail", "ok"}, "probe-ready-a": {ready}},
+			K:          1,
+			TickBudget: 2,
+			Horizon:    9 * time.Second,
+			Snap:       true,
+		}
+		sc.Check = func(w *World) []Violation {
+			var vs []Violation
+			tr := w.pre()
+			for _, sn := range w.Snapshots {
+				st, ok := sn.States["a"]
+				if !ok || sn.T > w.preEndT() || st.Status != "Launched" {
+					continue
+				}
+				last, lastT := "", time.Duration(0)
+				for i := 0; i < sn.Pos && i < len(tr); i++ {
+					e := tr[i]
+					if e.Kind == "start" && e.Proc == key0("a") {
+						last = ""
+					}
+					if e.Kind == "aux-ans" && e.Proc == "aux:probe-ready-a" {
+						last, lastT = e.Data, e.T
+					}
+				}
+				if last == "" || sn.T-lastT < quantum {
+					continue
+				}
+				want := "Ready"
+				if last != "ok" {
+					want = "Not Ready"
+				}
+				if st.Health != want {
+					vs = append(vs, viol("C10", "health-stale:daemon:"+last, "the last readiness answer since the daemon's launch was %q (t=%v) but it is reported %q at t=%v", last, lastT, st.Health, sn.T))
+					break
+				}
+			}
+			return vs
+		}
+		scs = append(scs, sc)
+	}
 	return scs
 }
 
